@@ -818,7 +818,7 @@ func TestFillDistinct(t *testing.T) {
 	}
 	// block filler
 	for i, b := range ch.Blocks[:6] {
-		if b.Time != 1_600_000_000+uint64(i)*12+3 || len(b.Bloom) != 256 || bytes.IndexByte(b.Bloom, 0) >= 0 {
+		if b.Time != 1_600_000_000+uint64(i)*12+3 || len(b.Bloom) != 256 || !bytes.Equal(b.Bloom, make([]byte, 256)) { // no logs: empty bloom
 			t.Errorf("block %d filler: time %d", i, b.Time)
 		}
 	}
